@@ -197,3 +197,27 @@ pub fn stdin_autosql_child(sizes: &str, out: &str) {
     if bedtobigbed(args).is_err() { std::process::exit(3); }
 }
 pub fn gen_stdin_autosql(r: &mut Rng) -> String { format!("cols={}", r.range(3, 9)) }
+
+/// C16 (UCSC flag spellings): `compat_args` must turn `<ucsc>=<value>` into `<native>=<value>` with the VALUE unchanged.
+/// args: tool=<binary name> flag=<ucsc flag without value, e.g. -chrom> native=<expected native flag> value=<text>
+pub fn run_compat(a: &Args) -> Result<(), String> {
+    use std::ffi::OsString;
+    let tool = a.get("tool").cloned().unwrap_or_else(|| "bigbedtobed".to_string());
+    let flag = a.get("flag").cloned().unwrap_or_else(|| "-chrom".to_string());
+    let native = a.get("native").cloned().unwrap_or_else(|| "--chrom".to_string());
+    let value = a.get("value").cloned().unwrap_or_else(|| "chr1".to_string());
+    let input = vec![OsString::from(tool.clone()), OsString::from("in.bb"), OsString::from("out.bed"), OsString::from(format!("{}={}", flag, value))];
+    let got: Vec<OsString> = bigtools::utils::cli::compat_args(input.into_iter()).collect();
+    let want = format!("{}={}", native, value);
+    match got.last().and_then(|s| s.to_str()) {
+        Some(s) if s == want && got.len() == 4 => Ok(()),
+        other => Err(format!("`{} … {}={}` is handed to the argument parser as {:?}, expected {:?} (all arguments: {:?})", tool, flag, value, other, want, got)),
+    }
+}
+pub fn gen_compat(r: &mut Rng) -> String {
+    let pairs = [("-chrom", "--chrom"), ("-start", "--start"), ("-end", "--end"), ("-blockSize", "--block-size"), ("-as", "--autosql"), ("-itemsPerSlot", "--items-per-slot")];
+    let (f, n) = pairs[r.range(0, pairs.len() as u64 - 1) as usize];
+    let vals = ["chr1", "12", "x-chrom1", "my-assembly.as", "a-start-b", "chr-end", "v"];
+    let v = vals[r.range(0, vals.len() as u64 - 1) as usize];
+    format!("tool=bigbedtobed flag={} native={} value={}", f, n, v)
+}
